@@ -222,6 +222,140 @@ fn expr(e: &Expression) -> J {
     }
 }
 
+// ---------------------------------------------------------------------------
+// tree import (exact replay of an exported tree, e.g. one particular HashMap
+// iteration order of the optimiser): engines are rebuilt the way parser.rs and
+// optimiser.rs build them
+
+fn from_bytes(j: &J) -> Result<String, String> {
+    bytes_to_string(j)
+}
+
+fn to_boolsym(s: &str) -> Result<BoolSym, String> {
+    Ok(match s {
+        "And" => BoolSym::And,
+        "Equal" => BoolSym::Equal,
+        "GreaterThan" => BoolSym::GreaterThan,
+        "GreaterThanOrEqual" => BoolSym::GreaterThanOrEqual,
+        "LessThan" => BoolSym::LessThan,
+        "LessThanOrEqual" => BoolSym::LessThanOrEqual,
+        "Or" => BoolSym::Or,
+        _ => return Err(format!("bad boolsym {}", s)),
+    })
+}
+
+fn to_modsym(s: &str) -> Result<ModSym, String> {
+    Ok(match s {
+        "Flt" => ModSym::Flt,
+        "Int" => ModSym::Int,
+        "Not" => ModSym::Not,
+        "Str" => ModSym::Str,
+        _ => return Err(format!("bad modsym {}", s)),
+    })
+}
+
+fn to_matchtype(j: &J) -> Result<MatchType, String> {
+    let v = from_bytes(&j["v"])?;
+    Ok(match j["t"].as_str().unwrap_or("") {
+        "Contains" => MatchType::Contains(v),
+        "EndsWith" => MatchType::EndsWith(v),
+        "Exact" => MatchType::Exact(v),
+        "StartsWith" => MatchType::StartsWith(v),
+        t => return Err(format!("bad matchtype {}", t)),
+    })
+}
+
+fn to_search(j: &J) -> Result<Search, String> {
+    let t = j["t"].as_str().ok_or("search kind")?;
+    Ok(match t {
+        "Any" => Search::Any,
+        "Contains" => Search::Contains(from_bytes(&j["v"])?),
+        "EndsWith" => Search::EndsWith(from_bytes(&j["v"])?),
+        "Exact" => Search::Exact(from_bytes(&j["v"])?),
+        "StartsWith" => Search::StartsWith(from_bytes(&j["v"])?),
+        "Regex" => {
+            let i = j["i"].as_bool().unwrap_or(false);
+            Search::Regex(
+                regex::RegexBuilder::new(&from_bytes(&j["p"])?)
+                    .case_insensitive(i)
+                    .build()
+                    .map_err(|e| e.to_string())?,
+                i,
+            )
+        }
+        "RegexSet" => {
+            let i = j["i"].as_bool().unwrap_or(false);
+            let ps: Vec<String> = j["ps"].as_array().ok_or("ps")?.iter().map(from_bytes).collect::<Result<_, _>>()?;
+            Search::RegexSet(
+                regex::RegexSetBuilder::new(ps).case_insensitive(i).build().map_err(|e| e.to_string())?,
+                i,
+            )
+        }
+        "AhoCorasick" => {
+            let i = j["i"].as_bool().unwrap_or(false);
+            let m: Vec<MatchType> = j["m"].as_array().ok_or("m")?.iter().map(to_matchtype).collect::<Result<_, _>>()?;
+            let needles: Vec<String> = m.iter().map(|x| x.value().clone()).collect();
+            Search::AhoCorasick(
+                Box::new(
+                    aho_corasick::AhoCorasickBuilder::new()
+                        .ascii_case_insensitive(i)
+                        .kind(Some(aho_corasick::AhoCorasickKind::DFA))
+                        .build(needles)
+                        .map_err(|e| e.to_string())?,
+                ),
+                m,
+                i,
+            )
+        }
+        _ => return Err(format!("bad search {}", t)),
+    })
+}
+
+fn to_expr(j: &J) -> Result<Expression, String> {
+    let t = j["t"].as_str().ok_or("expr kind")?;
+    Ok(match t {
+        "BooleanGroup" => Expression::BooleanGroup(
+            to_boolsym(j["op"].as_str().unwrap_or(""))?,
+            j["g"].as_array().ok_or("g")?.iter().map(to_expr).collect::<Result<_, _>>()?,
+        ),
+        "BooleanExpression" => Expression::BooleanExpression(
+            Box::new(to_expr(&j["l"])?),
+            to_boolsym(j["op"].as_str().unwrap_or(""))?,
+            Box::new(to_expr(&j["r"])?),
+        ),
+        "Boolean" => Expression::Boolean(j["v"].as_bool().ok_or("v")?),
+        "Cast" => Expression::Cast(from_bytes(&j["f"])?, to_modsym(j["m"].as_str().unwrap_or(""))?),
+        "Field" => Expression::Field(from_bytes(&j["f"])?),
+        "Float" => Expression::Float(f64::from_bits(j["bits"].as_u64().ok_or("bits")?)),
+        "Identifier" => Expression::Identifier(from_bytes(&j["f"])?),
+        "Integer" => Expression::Integer(j["v"].as_i64().ok_or("v")?),
+        "Match" => {
+            let m = if j["m"].as_str() == Some("All") { Match::All } else { Match::Of(j["m"].as_u64().ok_or("m")?) };
+            Expression::Match(m, Box::new(to_expr(&j["e"])?))
+        }
+        "Matrix" => Expression::Matrix(
+            j["c"].as_array().ok_or("c")?.iter().map(from_bytes).collect::<Result<_, _>>()?,
+            j["r"]
+                .as_array()
+                .ok_or("r")?
+                .iter()
+                .map(|row| {
+                    row.as_array()
+                        .ok_or("row".to_string())?
+                        .iter()
+                        .map(|c| if c.is_null() { Ok(None) } else { to_expr(c).map(Some) })
+                        .collect::<Result<Vec<_>, String>>()
+                })
+                .collect::<Result<_, _>>()?,
+        ),
+        "Negate" => Expression::Negate(Box::new(to_expr(&j["e"])?)),
+        "Nested" => Expression::Nested(from_bytes(&j["f"])?, Box::new(to_expr(&j["e"])?)),
+        "Null" => Expression::Null,
+        "Search" => Expression::Search(to_search(&j["s"])?, from_bytes(&j["f"])?, j["c"].as_bool().unwrap_or(false)),
+        _ => return Err(format!("bad expr {}", t)),
+    })
+}
+
 fn token(t: &Token) -> J {
     json!(format!("{:?}", t))
 }
@@ -287,6 +421,22 @@ fn handle(req: &J) -> Result<J, String> {
                 _ => return Err("bad mode".into()),
             };
             Ok(json!({"ok": true, "verdict": verdict}))
+        }
+        "eval_tree" => {
+            // evaluate an exported tree exactly as given (no loader, no optimiser)
+            let e = to_expr(&req["expr"])?;
+            let mut ids = std::collections::HashMap::new();
+            for kv in req["idents"].as_array().ok_or("idents")? {
+                ids.insert(from_bytes(&kv[0])?, to_expr(&kv[1])?);
+            }
+            let mode = req["mode"].as_str().unwrap_or("flat");
+            let fields = to_fields(&req["doc"]["$obj"])?;
+            let verdict = match mode {
+                "flat" => tau_engine::core::solve_expression(&e, &ids, &Flat(fields)),
+                "object" => tau_engine::core::solve_expression(&e, &ids, &Obj(fields)),
+                _ => return Err("bad mode".into()),
+            };
+            Ok(json!({"ok": true, "verdict": verdict, "display": format!("{}", e)}))
         }
         "eval_yaml" => {
             // document given as YAML text (serde_yaml mapping), or JSON text
